@@ -1402,14 +1402,27 @@ func (x *Exec) callSpecHelper(s *State, fn *types.Func, call *ast.CallExpr) []*T
 		}
 		log := s.log
 		found := false
+		hasGap := false
+		for _, e := range log {
+			if e == logGap {
+				hasGap = true
+			}
+		}
 		if fn.Name() == "wroteLast" {
 			if len(log) >= len(lits) {
 				found = true
 				for i, l := range lits {
-					if log[len(log)-len(lits)+i] != l {
+					e := log[len(log)-len(lits)+i]
+					if e == logGap {
+						// the tail reaches into an unknown stretch
+						return []*Term{x.freshVar("wrote", SBool)}
+					}
+					if e != l {
 						found = false
 					}
 				}
+			} else if hasGap {
+				return []*Term{x.freshVar("wrote", SBool)}
 			}
 		} else {
 			for i := 0; i+len(lits) <= len(log); i++ {
@@ -1422,6 +1435,10 @@ func (x *Exec) callSpecHelper(s *State, fn *types.Func, call *ast.CallExpr) []*T
 				if ok {
 					found = true
 				}
+			}
+			if !found && hasGap {
+				// absent from the known stretches, but an unknown stretch may contain it
+				return []*Term{x.freshVar("wrote", SBool)}
 			}
 		}
 		return []*Term{BoolLit(found)}
